@@ -18,3 +18,59 @@ claim("C07", "mtu",
       "Sender states are built on a real node (own namespace through the API, up to 40 other members through honest-form messages), peer digests are generated relative to them, and every SYN-ACK/ACK (and facade deltas under budgets 100..65,507) is measured, decoded by an independent decoder and compared entry by entry with the sender's copies; a binary search sizes the state so the reply lands on the 65,507-byte limit and sweeps it byte by byte. Exploration.",
       "Content classes are deterministic generators (constant, hex, printable, max-entropy UTF-8); zstd is trusted as a codec; strings <= 65,535 bytes.",
       "DESIGN.md 4/C07")
+SIM_NOTE = "Real Chitchat nodes, real serialized datagrams carried by the harness, paused tokio clock; the owner's local API is trusted to record the ledger; single incarnation per ChitchatId; the equal-staleness shuffle is seeded from the case."
+claim("C01", "sim",
+      "stateful property-based testing: generated fault prefix + harness-owned fair schedule; progress and bounded-convergence oracles",
+      "A generated prefix (writes, loss, duplication, reordering, partitions, key GC, clock advances, late joins, MTU-truncating values) is followed by a fair phase over a generated connected topology in which every connected ordered pair performs a loss-free handshake per round; oracle (a): a complete handshake where one side holds newer data strictly advances a lagging copy (side conditions: same member sets, nobody scheduled for deletion), oracle (b): all copies reach the owners' max versions within 10 + n*(entries+members) rounds. Liveness is decided as bounded convergence; exploration.",
+      SIM_NOTE + " Crashed owners are excluded (their last writes may be unrecoverable by design).",
+      "DESIGN.md 4/C01")
+claim("C02", "sim",
+      "stateful property-based testing against an owner-write ledger (invariant after every step), with entry-level exclusion of the known finding KF-1",
+      "Generated histories on 2..5 nodes with every fault of the step relation; after every step every copy on the touched node is compared with the ledger of the owner's writes: each key whose latest write is at or below the copy's max version must be held exactly (or be absent iff deleted/TTL at or below the copy's watermark). Mismatches whose provenance is exactly KF-1 are counted and reported as KNOWN-FINDING; anything else is a violation. Exploration.",
+      SIM_NOTE,
+      "DESIGN.md 4/C02, 5/KF-1")
+claim("C03", "sim",
+      "stateful property-based testing against an owner-write ledger (invariant after every step)",
+      "Same step relation as C02; after every step every entry of every copy on the touched node must equal the owner's write with that version (key, value, status), no copy's max version or recorded heartbeat may exceed the owner's, and no member that never existed may appear. Exploration.",
+      SIM_NOTE,
+      "DESIGN.md 4/C03")
+claim("C04", "sim+pairs+kv",
+      "stateful PBT (frontier monitors, panic capture) + small-scope enumeration of (copy, delta) pairs + model-based local API sequences",
+      "(a) cluster histories: per copy the (watermark, max version) pair never decreases, key versions never decrease without a strict watermark rise, and no honest message makes a node panic; (b) every (copy, honest-form delta) pair of a small scope (values 0..6), delivered once and twice, same monitors; (c) local API sequences vs the reference model for version allocation (exhaustive to length 5/6). Exploration with exhaustive small scopes.",
+      SIM_NOTE,
+      "DESIGN.md 4/C04")
+claim("C05", "sim",
+      "stateful property-based testing: before/after snapshot of the receiver's own namespace around every processed message",
+      "Same step relation as C02; around every delivery the receiver's own entries, max version and watermark must be identical and its heartbeat may only step by one; after every step no copy is ahead of its owner (max version, heartbeat). Exploration.",
+      SIM_NOTE,
+      "DESIGN.md 4/C05")
+claim("C08", "wirecheck",
+      "round-trip and differential testing against an independent encoder/decoder, both directions",
+      "Direction 1: generated model messages are encoded by an independent implementation of the layout (canonical, raw, compressed, mixed and tiny blocks) and must decode to the expected message, consume all bytes, announce the right length and (canonical mode) re-encode to identical bytes. Direction 2: messages emitted by real nodes in generated states must round-trip through the real codec, be decoded identically by the independent decoder, and be reproduced byte-for-byte by the independent canonical encoder. Exploration (plus libFuzzer targets in the thorough tier when available).",
+      "zstd trusted as a codec; the independent codec was written from the layout in message.rs/digest.rs/delta.rs/serialize.rs and shares no code with it.",
+      "DESIGN.md 4/C08")
+claim("C12", "sim",
+      "stateful property-based testing with membership monitors over decoded outgoing messages",
+      "Membership-heavy histories (crashes, restarts under a new generation, partitions, clocks at grace/2 and grace +- delta, skewed evaluations): live/dead disjoint, self live and present, exact partition after each evaluation, nothing about a member dead for more than grace/2 in any outgoing digest or delta, removal at grace, re-creation only by a strictly higher heartbeat, no liveness before two increasing heartbeats. Exploration.",
+      SIM_NOTE + " Death times are observed at evaluations (the only place the dead set changes); a 2^-20 relative band plus 1 ms around grace/2 is not asserted.",
+      "DESIGN.md 4/C12")
+claim("C13", "sim",
+      "stateful property-based testing: watch-channel value vs recomputed expectation after every evaluation",
+      "Membership histories with owner writes, TTL deletes and key GC, with and without an extra liveness predicate: after every evaluation the channel must list exactly the live members satisfying the predicate with current max versions, and a change of the live set or of a live member's max version must publish. Exploration.",
+      SIM_NOTE + " Predicates range over visible key-values only.",
+      "DESIGN.md 4/C13")
+claim("C14", "pairs",
+      "exhaustive small-scope enumeration of (sender copy, receiver copy, budget) + random larger scopes; spec-level oracle and reference apply",
+      "All 64 x 65 frontier pairs with watermarks/versions 0..7 (incl. watermark > max and unknown member), sender entry sets of <= 3 versions with every status, <= 1 receiver entry, every truncation point; the sender's reply to the receiver's own digest is checked against the documented rule and applied to the unchanged receiver, which must strictly advance and equal a reference apply. Quick tier samples 1/40 of the inner product, thorough enumerates it all. Exploration / exhaustive in scope.",
+      "Copies are installed through honest-form messages and verified through public getters before use.",
+      "DESIGN.md 4/C14")
+claim("C16", "sim",
+      "stateful property-based testing on two clusters sharing the network",
+      "Two clusters (ids from a set with empty, prefix-related and case-variant strings) of 1..3 nodes whose SYNs cross; a foreign SYN must yield exactly BadCluster and leave membership, key-values and live/dead/scheduled sets untouched, BadCluster changes nothing at the initiator, and after every step every member known to a node belongs to its own cluster. Exploration.",
+      SIM_NOTE + " Each node has its own address.",
+      "DESIGN.md 4/C16")
+claim("C20", "sim+pairs",
+      "stateful PBT with a counting callback + (copies, multi-member delta) pair generation; oracle = watermark rise and independent reset prediction",
+      "Around every processed message the callback count must be 1 iff some copy's watermark rose, and that must match the reset rule evaluated on the independently decoded delta; histories supply stale duplicates and third-party resets, pairs supply several resets in one message and members created by the same message. Exploration.",
+      SIM_NOTE,
+      "DESIGN.md 4/C20")
